@@ -211,6 +211,10 @@ fn value_payloads(now: u64, full: bool) -> Vec<(String, Value)> {
         ("nested".into(), json!({"sub": "u", "roles": ["a", {"k": [1, 2.5, null, true, -3]}], "inner": {"exp": 1, "nbf": 99999999999u64}, "uni": "pä\n\"q\" \u{1F600}"})),
         ("string-payload".into(), json!("just a string")),
         ("array-payload".into(), json!(["exp", 1])),
+        // "the handler then observes exactly the signed payload": decimals with 16-17 significant digits, for which a JSON reader
+        // that does not round correctly comes out one unit in the last place off (found by search: 8 of the first 93 candidates)
+        ("float-payload".into(), json!({"sub": "u", "f": [985690694.6328695, 0.21291890726713458, 198136406.38684994, 92.42132512813595,
+            1.8057721557255225e-6, 925.9338926496359, 972610478.8033849, 0.9720916325967499, 985.6906946328695, 0.1, 1e-7, 5e-324, 1.7976931348623157e308]})),
     ];
     // integer claims: the full product {absent, now-1, now, now+1}^3
     let opts: Vec<Option<u64>> = { let mut v = vec![None]; if now > 0 { v.push(Some(now - 1)) } v.push(Some(now)); v.push(Some(now + 1)); v };
